@@ -32,3 +32,17 @@ Theorem C06_later_operations_see_the_state_left : forall hp0 rc0 arrs0, arrs_ok 
   sc sn = g_rc (sh_ s) /\ sh sn = g_hp (sh_ s) /\ sa + 1 = narr (sh_ s) /\ g_dirty (sh_ s) = false /\ (forall y, In y (x :: r) -> g_held (sh_ s) sa y = Some t /\ y < asz (sh_ s) sa) /\ (forall t', ~ all_holder (thr s t')).
 Proof. exact validated_current. Qed.
 Print Assumptions C06_later_operations_see_the_state_left.
+
+(* ---- a stream extraction inside the section that FAILS still hands the table back protocol-consistent: every failing opportunity after the bucket array was replaced comes after the generation bump (Effects.v; the order before repair 11077aa is rejected by stream_in_bump_last_is_inconsistent) ---- *)
+From LC Require Import gen.EffectOrder Effects.
+Theorem C06_failed_extraction_leaves_no_unbumped_write :
+  forall (k : nat) (b : bool), run_pending stream_in_effects k false = Some b -> b = false.
+Proof. exact stream_in_failure_leaves_no_unbumped_write. Qed.
+Print Assumptions C06_failed_extraction_leaves_no_unbumped_write.
+
+Theorem C06_consistent_order_leaves_no_unbumped_write :
+  forall effs : list effect,
+  consistent_order effs = true ->
+  forall (k : nat) (b : bool), run_pending effs k false = Some b -> b = false.
+Proof. exact consistent_order_failure_leaves_no_unbumped_write. Qed.
+Print Assumptions C06_consistent_order_leaves_no_unbumped_write.
